@@ -137,3 +137,91 @@ func VerifHeaderStore() {
 	}
 	nondet.Cover("checked")
 }
+
+// ---- sub-fields (name:key).  Keys, values and spellings are chosen
+// symbolically from small alphabets of exemplars (the sub-field code is a
+// regular-expression rewrite of the header text, which runs on concrete
+// strings); the values include separators, spaces, quotes, '=' and tokens
+// that equal another key, so that a value leaking into the key space shows.
+
+var hKeys = []string{"beta", "gamma", "right"}
+var hFieldValues = []string{"1", "left,right", "a b", "a,gamma", "q\"t", "x=y", "", "p;q"}
+
+type hField struct{ key, val string }
+
+func VerifSubfields() {
+	obj := nondet.Param("OBJ")
+	vars, scope := hSetup(obj)
+	nv := nondet.Param("NV")
+	var ref []hField // the sub-fields of header X-List, in order
+	other, otherSet := "", false
+	find := func(k string) int {
+		for i, f := range ref {
+			if f.key == k {
+				return i
+			}
+		}
+		return -1
+	}
+	names := []string{"o0", "o1", "o2", "o3"}
+	for k := 0; k < nondet.Param("H"); k++ {
+		n := names[k]
+		hname := hPrefix[obj] + []string{"X-List", "x-list"}[nondet.Choice(n+"_spell", 2)]
+		key := hKeys[nondet.Choice(n+"_key", len(hKeys))]
+		var err error
+		switch nondet.Choice(n+"_op", 3) {
+		case 0: // set a sub-field
+			v := hFieldValues[nondet.Choice(n+"_val", nv)]
+			err = vars.Set(scope, hname+":"+key, "=", &value.String{Value: v})
+			if i := find(key); i >= 0 {
+				ref = append(ref[:i:i], ref[i+1:]...)
+			}
+			ref = append(ref, hField{key, v})
+		case 1: // unset a sub-field
+			err = vars.Unset(scope, hname+":"+key)
+			if i := find(key); i >= 0 {
+				ref = append(ref[:i:i], ref[i+1:]...)
+			}
+		default: // write another header
+			other, otherSet = hFieldValues[nondet.Choice(n+"_val", nv)], true
+			err = vars.Set(scope, hPrefix[obj]+"Other", "=", &value.String{Value: other})
+		}
+		nondet.Assert(err == nil, "a sub-field operation on a writable object fails")
+		if err != nil {
+			return
+		}
+	}
+	// read every key, and the other header
+	for _, key := range hKeys {
+		got, gerr := vars.Get(scope, hPrefix[obj]+"X-LIST:"+key)
+		nondet.Assert(gerr == nil, "reading a sub-field fails")
+		if gerr != nil {
+			return
+		}
+		s, ok := got.(*value.String)
+		nondet.Assert(ok, "a sub-field does not read as STRING")
+		if !ok {
+			return
+		}
+		i := find(key)
+		nondet.Observe("field", key, s.Value, s.IsNotSet, i)
+		if i < 0 {
+			nondet.Assert(s.IsNotSet, "a sub-field that was never written, or was removed, does not read as not set")
+		} else {
+			nondet.Assert(!s.IsNotSet && s.Value == ref[i].val, "a sub-field does not read back the value written to it")
+		}
+	}
+	got, gerr := vars.Get(scope, hPrefix[obj]+"other")
+	nondet.Assert(gerr == nil, "reading a header fails")
+	if gerr != nil {
+		return
+	}
+	if s, ok := got.(*value.String); ok {
+		if otherSet {
+			nondet.Assert(!s.IsNotSet && s.Value == other, "a sub-field operation changes another header")
+		} else {
+			nondet.Assert(s.IsNotSet, "a sub-field operation creates another header")
+		}
+	}
+	nondet.Cover("checked")
+}
